@@ -463,6 +463,67 @@ func (g *Gen) genSpecialProduct(out func() *Prog) {
 
 // genCmp emits comparison cases (C16).
 func (g *Gen) genCmp(p *Prog) {
+	switch g.intn(8) {
+	case 0: // same leading words, a lower word differing by more than 2^63 (or missing altogether)
+		prefix := g.digitsPattern(19 * (1 + g.intn(3)))
+		hi := []string{"9500000000000000000", "9999999999999999999", "9300000000000000000", "9223372036854775808"}[g.intn(4)]
+		lo := []string{"0100000000000000000", "0000000000000000001", "0000000000000000000", ""}[g.intn(4)]
+		tail := ""
+		if g.chance(0.5) {
+			tail = g.digitsPattern(1 + g.intn(25))
+		}
+		neg := g.intn(2) == 0
+		e := g.exp()
+		mk := func(d string) Val {
+			d = trimZeros(d)
+			return Val{Form: 1, Neg: neg, Digits: d, Exp: e, Prec: uint(len(d)) + uint(g.intn(3)), Mode: g.mode()}
+		}
+		a := p.Load(mk(prefix + hi + tail))
+		lt := tail
+		if lo == "" {
+			lt = ""
+		}
+		b := p.Load(mk(prefix + lo + lt))
+		p.cmp(a, b)
+		p.cmp(b, a)
+		c := p.Load(mk(prefix + "5000000000000000000"))
+		p.cmp(a, c)
+		p.cmp(c, b)
+		return
+	case 1: // infinities (and zeros) with different histories: stale exponent and mantissa must not matter
+		mkInf := func(neg bool) int {
+			switch g.intn(3) {
+			case 0:
+				return p.Load(Val{Form: 2, Neg: neg, Prec: g.prec(true), Mode: g.mode()})
+			case 1:
+				v := g.finite()
+				i := p.Load(v)
+				p.Exec(fmt.Sprintf("setinf %d %d", i, map[bool]int{false: 0, true: 1}[neg]))
+				return i
+			default:
+				v := g.finite()
+				v.Neg = neg
+				i := p.Load(v)
+				z := p.Load(Val{Form: 0, Neg: false, Prec: 0})
+				p.Exec(fmt.Sprintf("quo %d %d %d", i, i, z)) // x / +0 = ±Inf, keeps stale fields
+				return i
+			}
+		}
+		neg := g.intn(2) == 0
+		a, b := mkInf(neg), mkInf(neg)
+		p.cmp(a, b)
+		p.cmp(b, a)
+		c := mkInf(!neg)
+		p.cmp(a, c)
+		// zeros with different histories
+		v := g.finite()
+		zi := p.Load(v)
+		p.Exec(fmt.Sprintf("sub %d %d %d", zi, zi, zi))
+		z2 := p.Load(Val{Form: 0, Neg: g.intn(2) == 0, Prec: 3})
+		p.cmp(zi, z2)
+		p.cmp(z2, zi)
+		return
+	}
 	x := g.any()
 	y := g.related(x)
 	if g.chance(0.15) {
